@@ -36,3 +36,17 @@ package main
 //@   before mapupdate stagers assert registered-under-its-source-name: arg1 == name && arg2 == stager && called(strings.ReplaceAll) && name == lastret(strings.ReplaceAll, 0) && lastarg(strings.ReplaceAll, 0) == lastret(io/fs.DirEntry.Name, 0)
 //@   before go sts.GateKeeper.Recover assert registered-before-recovery: arg0 == stager && has(stagers, name) && stagers[name] == stager
 //@   modifies everything
+
+// ---------------------------------------------------------------- the sender's queue wiring (C11 C12)
+
+// every tag of the queue has a chunk limit: its own, or the payload size when it has none - whatever
+// its method; and the tags of the queue carry the configured priorities and orders
+//@ func (*clientApp).init
+//@   loop 3 backedge assert every-tag-gets-a-chunk-limit: qtags[i] != nil && (t.ChunkSize != 0 ==> qtags[i].ChunkSize == t.ChunkSize) && (t.ChunkSize == 0 ==> qtags[i].ChunkSize == c.conf.BinSize) && qtags[i].Priority == t.Priority && qtags[i].LastDelay == t.LastDelay
+//@   modifies everything
+
+// the tag of a group: the first tag whose name is the group itself or whose pattern matches it
+//@ func (*clientApp).init$3
+//@   loop 0 backedge assert passes-only-tags-that-do-not-apply: t.Pattern == nil || (qtags[i].Name != group && !t.Pattern.MatchString(group))
+//@   on return assert names-the-tag-that-applied: tag != "" ==> called((*regexp.Regexp).MatchString) || qtags[i].Name == group
+//@   modifies nothing
